@@ -35,6 +35,11 @@ Definition:   (kind, name, [params], [body statements])     kind: function | tem
 # expressions
 # --------------------------------------------------------------------------
 
+# the name a ('call', ..) is rendered with: `g` (defined nowhere); the end-to-end
+# files of C10.py set it to the name of another definition of the same file
+CALLEE = ["g"]
+
+
 def V(name, idx=()):
     return ('v', name, list(idx))
 
@@ -104,7 +109,7 @@ def rexpr(e):
     if k == 'tern':
         return "(%s ? %s : %s)" % (rexpr(e[1]), rexpr(e[2]), rexpr(e[3]))
     if k == 'call':
-        return "g(%s)" % ", ".join(rexpr(a) for a in e[1])
+        return "%s(%s)" % (CALLEE[0], ", ".join(rexpr(a) for a in e[1]))
     if k == 'arr':
         return "[%s]" % ", ".join(rexpr(a) for a in e[1])
     if k == 'anon':
@@ -559,6 +564,11 @@ NAMES = ["x", "x_0", "y", "x_1", "x_0_0", "x_0_1", "$x", "_x", "x$0", "T_3_45",
 LOOKALIKES = ["x_0", "x0", "x_1", "x1", "x00", "x_0_0", "x0_0", "x$0", "x__0", "x_00", "x_0_1", "x01", "x10", "x_", "x$"]
 
 
+# identifiers that are themselves the key of a suffixed `x` under the key format the
+# lint read from ssa_impl.rs (empty for `name.suffix`: `x.0` is no identifier)
+EXTRA_LOOKALIKES = []
+
+
 def name_pool(rng):
     """The names of one random definition: `x`, one to three lookalikes of a
     suffixed `x`, `y`, now and then a few unrelated shapes. `x_0` (the D20
@@ -574,6 +584,8 @@ def name_pool(rng):
         look = ["x1", "x_1"] if rng.random() < 0.5 else ["x0", "x1"]
     else:
         look = rng.sample(LOOKALIKES, 1 + rng.randrange(3))
+    if EXTRA_LOOKALIKES and rng.random() < 0.6:
+        look = rng.sample(EXTRA_LOOKALIKES, min(len(EXTRA_LOOKALIKES), 1 + rng.randrange(2))) + look[:1]
     names = ["x"] + look + ["y"]
     if rng.random() < 0.15:
         names += rng.sample(["$x", "_x", "T_3_45", "xx", "x_x"], 1 + rng.randrange(2))
@@ -589,12 +601,18 @@ def rand_def(rng, size, names=None, kind=None, clean=False, maxdepth=4):
     declared and every use is declared (SSA construction must succeed)."""
     names = names or name_pool(rng)
     kind = kind or ("function" if clean or rng.random() < 0.6 else "template")
-    nparams = rng.choice([0, 1, 1, 2, 3])
+    nparams = rng.choice([0, 1, 1, 2, 3, 4, 5])
     params = []
     for _ in range(nparams):
         p = rng.choice(names)
         if p not in params or (not clean and rng.random() < 0.05):
             params.append(p)
+    if not clean and nparams >= 4 and rng.random() < 0.04:
+        # two different names repeat: `the first repeated parameter` is not `any repeated one`
+        extra = [n for n in names if n not in params][:2] or ["p", "q"]
+        params = (params + extra)[:3]
+        a, b = rng.sample(params, 2) if len(params) >= 2 else (params[0], params[0])
+        params = params + ([b, a] if rng.random() < 0.5 else [a, b])
     budget = [size]
     counter = [0]
 
@@ -674,6 +692,26 @@ def rand_def(rng, size, names=None, kind=None, clean=False, maxdepth=4):
     def braced(vis, depth):
         return ('block', block(vis, depth + 1))
 
+    def unbraced(vis, depth, lvl):
+        """A body without braces: never a declaration (the grammar has none there).
+        lvl follows the statement tiers of lang.lalrpop: 2 = loop body (no `if` at
+        all), 1 = a then-branch that is followed by `else` (only `if`s that have an
+        else themselves), 0 = anything (an else-less `if` too)."""
+        r = rng.random()
+        if r < 0.50 or budget[0] <= 0 or depth >= maxdepth:
+            return simple_assign(vis)
+        if r < 0.62:
+            return ('log', [expr(vis, 1)])
+        if r < 0.70:
+            return ('assert', expr(vis, 1))
+        if r < 0.80:
+            return ('while', expr(vis, 1), unbraced(vis, depth + 1, 2))
+        if lvl <= 1 and r < 0.90:
+            return ('if', expr(vis, 1), unbraced(vis, depth + 1, 1), unbraced(vis, depth + 1, lvl))
+        if lvl == 0:
+            return ('if', expr(vis, 1), unbraced(vis, depth + 1, 0), None)
+        return simple_assign(vis)
+
     def stmt(vis, depth):
         r = rng.random()
         if r < 0.30:
@@ -719,13 +757,23 @@ def rand_def(rng, size, names=None, kind=None, clean=False, maxdepth=4):
             if r < 0.72:
                 return braced(vis, depth)
             if r < 0.80:
-                body = braced(vis, depth) if rng.random() < 0.8 else simple_assign(vis)
+                body = braced(vis, depth) if rng.random() < 0.8 else unbraced(vis, depth, 2)
                 return ('while', top(expr(vis, 1), 0.04), body)
             if r < 0.90:
-                then = braced(vis, depth) if rng.random() < 0.85 else simple_assign(vis)
                 els = None
                 if rng.random() < 0.5:
-                    els = braced(vis, depth) if rng.random() < 0.85 else simple_assign(vis)
+                    q = rng.random()
+                    if q < 0.70:
+                        els = braced(vis, depth)
+                    elif q < 0.85:
+                        # else if (..) .. [else ..]
+                        e2 = (braced(vis, depth) if rng.random() < 0.6 else unbraced(vis, depth, 0)) if rng.random() < 0.5 else None
+                        t2 = braced(vis, depth) if rng.random() < 0.7 else unbraced(vis, depth, 0 if e2 is None else 1)
+                        els = ('if', expr(vis, 1), t2, e2)
+                    else:
+                        els = unbraced(vis, depth, 0)
+                # a then-branch followed by `else` must not be (or end in) an else-less `if`
+                then = braced(vis, depth) if rng.random() < 0.85 else unbraced(vis, depth, 0 if els is None else 1)
                 return ('if', top(expr(vis, 1), 0.04), then, els)
             if r < 0.97:
                 v2 = set(vis)
@@ -734,6 +782,11 @@ def rand_def(rng, size, names=None, kind=None, clean=False, maxdepth=4):
                     budget[0] -= 1
                     init = ('decl', "var", [(n, [], num())])
                     v2.add(n)
+                    if rng.random() < 0.25:
+                        # for (var i = 0, j = i; ..): several declarators in the header
+                        m = rng.choice(names)
+                        init = ('decl', "var", [(n, [], num()), (m, [], V(n) if m != n or not clean else num())])
+                        v2.add(m)
                 else:
                     n = pick(vis)
                     init = ('asg', n, [], num(), "=") if n is not None else ('decl', "var", [(names[0], [], num())])
@@ -742,7 +795,7 @@ def rand_def(rng, size, names=None, kind=None, clean=False, maxdepth=4):
                         v2.add(n)
                 cond = ('op', V(n), num())
                 step = ('inc', n, []) if rng.random() < 0.6 else ('opasg', n, [], num())
-                body = braced(v2, depth) if rng.random() < 0.85 else simple_assign(v2)
+                body = braced(v2, depth) if rng.random() < 0.85 else unbraced(v2, depth, 2)
                 return ('for', init, cond, step, body)
         if kind == "template" and not clean and r > 0.97:
             return ('ceq', expr(vis, 1), expr(vis, 1))
@@ -771,6 +824,8 @@ def deep_def(rng, clean=True):
     components among the redeclarations and uses of undeclared names."""
     kind = "function" if clean or rng.random() < 0.5 else "template"
     looks = rng.sample(DEEP_LOOKALIKES, 2 + rng.randrange(3))
+    if EXTRA_LOOKALIKES:
+        looks = rng.sample(EXTRA_LOOKALIKES, min(len(EXTRA_LOOKALIKES), 2)) + looks[:1]
     counter = [0]
 
     def num():
